@@ -51,6 +51,9 @@ pub enum Naming {
     FreshLike,
     /// numeric, order reversed: n -> 250-n
     NumericRev,
+    /// textual names of the fresh form `$f<k>` where k is exactly the library's next unissued fresh
+    /// index at the moment the name is first used
+    FreshNext,
 }
 
 pub fn slot_of(n: Name, nm: Naming) -> Slot {
@@ -72,6 +75,19 @@ pub fn slot_of(n: Name, nm: Naming) -> Slot {
             Slot::named(&format!("n{n}x"))
         }
         Naming::FreshLike => Slot::named(&format!("f{}", 100000 + n as u32)),
+        Naming::FreshNext => {
+            thread_local! { static MEMO: std::cell::RefCell<std::collections::HashMap<Name, Slot>> = Default::default(); }
+            MEMO.with(|m| {
+                if let Some(s) = m.borrow().get(&n) {
+                    return *s;
+                }
+                let probe = Slot::fresh().to_string(); // "$f<K>"
+                let k: u32 = probe[2..].parse().unwrap();
+                let s = Slot::named(&format!("f{}", k + 1));
+                m.borrow_mut().insert(n, s);
+                s
+            })
+        }
     }
 }
 
